@@ -325,6 +325,99 @@ pub fn redim_programs() -> Vec<(Prog, String)> {
     out
 }
 
+/// The ways control flow can go past a DIM without executing it (and, last, the baseline that executes it).
+pub const BYPASSES: [&str; 6] = ["GOTO over it", "IF branch not taken", "CASE not taken", "WHILE body never entered", "FOR body never entered", "executed"];
+
+/// A declaration that control flow goes past without executing it: records and arrays with literal bounds
+/// exist all the same (they are allocated when the module or subprogram starts) and behave as declared;
+/// arrays whose bounds are computed, and REDIMmed ones, do not exist yet: Subscript out of range.
+/// Main module and inside a SUB; scalar DIMs (typed by AS) ride along to show the type still applies.
+pub fn bypassed_dim_programs() -> Vec<(Prog, String)> {
+    let mut out = vec![];
+    // (label, declaration, is it a dynamic array)
+    let decls: Vec<(&str, Elem, Vec<(i32, i32)>, u8)> = vec![
+        ("static array", Elem::Scalar(Ty::Int), vec![(1, 3)], 0),
+        ("static array, two dimensions, negative lower bound", Elem::Scalar(Ty::Str), vec![(-1, 3), (0, 2)], 0),
+        ("static array of records", Elem::Rec, vec![(0, 2)], 0),
+        ("static array of fixed strings", Elem::Fix3, vec![(1, 2)], 0),
+        ("record", Elem::Rec, vec![], 0),
+        ("array with a computed bound", Elem::Scalar(Ty::Int), vec![(1, 3)], 1),
+        ("REDIMmed array", Elem::Scalar(Ty::Str), vec![(1, 3)], 2),
+    ];
+    for (dl, elem, dims, dynamic) in &decls {
+        for (bi, bl) in BYPASSES.iter().enumerate() {
+            for in_sub in [false, true] {
+                let mut b = B::new();
+                let shape = Shape { dims: dims.clone(), explicit: true };
+                let mut d = if dims.is_empty() {
+                    b.s(K::Dim { shared: false, redim: false, vars: vec![DimVar { name: "A".into(), ty: Some(DeclTy::Rec("Outer".into())), dims: vec![] }] })
+                } else {
+                    dim_stmt(&mut b, "A", &shape, *elem)
+                };
+                if let K::Dim { redim, vars, .. } = &mut d.k {
+                    if *dynamic == 1 {
+                        vars[0].dims[0].1 = var("N%");
+                    }
+                    if *dynamic == 2 {
+                        *redim = true;
+                    }
+                }
+                // a typed scalar declared next to it: its type applies wherever the DIM is
+                let d2 = b.s(K::Dim { shared: false, redim: false, vars: vec![DimVar { name: "Q".into(), ty: Some(DeclTy::Scalar(Ty::Int)), dims: vec![] }, DimVar { name: "F".into(), ty: Some(DeclTy::FixStr(4)), dims: vec![] }] });
+                let decl = vec![d, d2];
+                let mut body = vec![b.assign(var("N%"), num(3)), b.assign(var("Z%"), num(0))];
+                match bi {
+                    0 => {
+                        body.push(b.s(K::Goto("Past".into())));
+                        body.extend(decl);
+                        body.push(b.s(K::Label("Past".into())));
+                    }
+                    1 => body.push(b.s(K::If { arms: vec![(var("Z%"), decl)], els: None, single_line: false })),
+                    2 => {
+                        let zero = b.print(vec![st("zero")]);
+                        body.push(b.s(K::Select { subject: var("Z%"), cases: vec![(vec![CaseExpr::Simple(num(1))], decl), (vec![CaseExpr::Simple(num(0))], vec![zero])], els: None }));
+                    }
+                    3 => body.push(b.s(K::While(var("Z%"), decl))),
+                    4 => body.push(b.s(K::For { var: var("I%"), from: num(1), to: var("Z%"), step: None, body: decl, next_var: false })),
+                    _ => body.extend(decl),
+                }
+                body.push(b.assign(var("Q"), Expr::Num("3.75".into())));
+                body.push(b.assign(var("F"), st("abcdefg")));
+                body.push(b.print(vec![var("Q"), st("["), var("F"), st("]")]));
+                if dims.is_empty() {
+                    body.push(b.assign(Expr::Field(Box::new(var("A")), "N".into()), num(7)));
+                    body.push(b.assign(Expr::Field(Box::new(var("A")), "S".into()), st("xyz")));
+                    body.push(b.assign(Expr::Field(Box::new(Expr::Field(Box::new(var("A")), "I".into())), "P".into()), num(70000)));
+                    body.push(b.print(vec![Expr::Field(Box::new(var("A")), "N".into()), st("["), Expr::Field(Box::new(var("A")), "S".into()), st("]"), Expr::Field(Box::new(Expr::Field(Box::new(var("A")), "I".into())), "P".into())]));
+                } else {
+                    let all = cells(&shape);
+                    for (k, cell) in all.iter().enumerate() {
+                        for (loc, val) in cell_writes("A", *elem, cell, k as i64 + 1) {
+                            body.push(b.assign(loc, val));
+                        }
+                    }
+                    body.extend(dump(&mut b, "A", *elem, &shape, "a"));
+                    let an = arr_name("A", *elem);
+                    for d in 1..=shape.dims.len() {
+                        body.push(b.print(vec![builtin("LBOUND", vec![var(&an), num(d as i64)]), builtin("UBOUND", vec![var(&an), num(d as i64)])]));
+                    }
+                }
+                let label = format!("DIM bypassed: {} / {} / {}", dl, bl, if in_sub { "in a SUB" } else { "main module" });
+                let prog = if in_sub {
+                    let id = b.id();
+                    let call1 = b.s(K::Call("Work".into(), vec![]));
+                    let call2 = b.s(K::Call("Work".into(), vec![]));
+                    Prog { types: rec_types(), main: vec![call1, call2], subs: vec![SubDef { id, name: "Work".into(), is_function: false, params: vec![], body, is_static: false }], declare: true, ..Default::default() }
+                } else {
+                    Prog { types: rec_types(), main: body, ..Default::default() }
+                };
+                out.push((prog, label));
+            }
+        }
+    }
+    out
+}
+
 /// REDIM inside a SUB: of an array that the module declared SHARED (the module's array gets the new bounds and
 /// every subprogram sees them) and of a name the module did not share (a local array).
 pub fn redim_in_sub_programs() -> Vec<(Prog, String)> {
